@@ -51,8 +51,14 @@ def run_fault(case, chooser):
         spy.only_instance = 0
         spy.count = 0
         spy.calls = []
+        import aioftp as _a
+
+        def _bare(*args):
+            return _a.PathIOError("backend says no")        # no reason triple, as a third-party backend may do
+
         spy.fail_exc = {"OSError": OSError, "TimeoutError": TimeoutError, "ValueError": ValueError,
-                        "KeyError": KeyError, "RuntimeError": RuntimeError}[case.get("exc", "OSError")]
+                        "KeyError": KeyError, "RuntimeError": RuntimeError, "PathIOError": _bare,
+                        "ConnectionError": ConnectionResetError}[case.get("exc", "OSError")]
         if case["mode"] == "single":
             spy.fail_at = case["k"]
         elif case["mode"] == "repeat":
@@ -247,7 +253,7 @@ def build_items(tier):
                             "solo": solos[backend]}
                     items.append((case, bound, kinds))
                 # a backend may fail with any kind of exception (time-outs, value errors, ...)
-                for exc in ("TimeoutError", "ValueError", "KeyError", "RuntimeError"):
+                for exc in ("TimeoutError", "ValueError", "KeyError", "RuntimeError", "PathIOError", "ConnectionError"):
                     if tier == "quick" and backend != "memory":
                         continue
                     case = {"script": script, "backend": backend, "mode": "single", "k": k, "second": False,
@@ -283,7 +289,8 @@ def run(tier, seed, t0):
     bounds = {"scripts": len(SCRIPTS), "backends": ["memory", "pathio"] + ([] if tier == "quick" else ["async"]),
               "fault_positions": "every backend call k=1..K of the fault-free run of each script",
               "fault_modes": ["single (k-th call)", "repeated (every call of that operation kind from k on)"],
-              "exception_kinds": ["OSError", "TimeoutError", "ValueError", "KeyError", "RuntimeError"],
+              "exception_kinds": ["OSError", "TimeoutError", "ValueError", "KeyError", "RuntimeError", "bare aioftp.PathIOError",
+                                  "ConnectionResetError"],
               "deviation_bound": 0 if tier == "quick" else 1, "second_session": True, "cases": len(items)}
     return report.finish(
         PID, tier, seed, "fault_enumeration", part, t0,
